@@ -4,6 +4,7 @@ CONSTANTS
  Cap <- CapSmall
  HasArray <- ArrNone2
  FbHasTryAllocArray = TRUE
+ SegByTotal = TRUE
  MaxLive = 4
 INVARIANT ReleasedAsAllocated
 INVARIANT UsedWithinCapacity
